@@ -1067,23 +1067,55 @@ def make_job(tmp, idx, d, rng, plans, opts=None):
 JOB_OPTS = ('app', 'prefix', 'pkg', 'init_file', 'mode')
 
 
-def gen_schedule(rng, n):
-    """an interleaving of `['c', i]` (construct generator i) and `['g', i]` (its generate(), once — sometimes twice) for i < n,
-    every generator constructed before it generates; biased towards another construction between `c i` and `g i`"""
-    seqs = [[['c', i], ['g', i]] + ([['g', i]] if rng.random() < 0.15 else []) for i in range(n)]
+def gen_schedule(rng, n, reuse=None):
+    """an interleaving of `['c', i]` (parse dictionary i + construct generator i) and `['g', i]` (its generate(), once — sometimes
+    twice) for i < n, every generator constructed before it generates; biased towards another construction between `c i` and
+    `g i`.  `reuse` = {i: s}: generator i is constructed on the Definitions object that was parsed for member s (`['c', i, s]`, no
+    parse of its own: ONE parse() result handed to several generators), anywhere after that parse — before or after s's own
+    generate(), before or after other dictionaries' steps; a member that lends its parse sometimes parses first (`['p', s]`) and
+    constructs its own generator on that object later (`['c', s, s]`)"""
+    reuse = reuse or {}
+    seqs = []
+    for i in range(n):
+        if i in reuse:
+            first = [['c', i, reuse[i]]]
+        elif i in reuse.values() and rng.random() < 0.3:
+            first = [['p', i], ['c', i, i]]
+        else:
+            first = [['c', i]]
+        seqs.append(first + [['g', i]] + ([['g', i]] if rng.random() < 0.15 else []))
+    parsed = set()
+
+    def enabled(op):
+        return len(op) < 3 or op[2] in parsed
+
+    def emit(out, op):
+        out.append(op)
+        if len(op) < 3:
+            parsed.add(op[1])
     if rng.random() < 0.5:      # prepare all, then write all (in any order)
         order = list(range(n))
         rng.shuffle(order)
-        cs = [seqs[i][0] for i in order]
-        gs = [op for i in range(n) for op in seqs[i][1:]]
+        order.sort(key=lambda i: i in reuse)            # (a parse comes before the generators built on it)
+        out = []
+        for i in order:
+            for op in seqs[i]:
+                if op[0] != 'g':
+                    emit(out, op)
+        gs = [op for i in range(n) for op in seqs[i] if op[0] == 'g']
         rng.shuffle(gs)
-        return cs + gs
+        return out + gs
     out, pos = [], [0] * n
     while any(pos[i] < len(seqs[i]) for i in range(n)):
-        i = rng.choice([x for x in range(n) if pos[x] < len(seqs[x])])
-        out.append(seqs[i][pos[i]])
+        i = rng.choice([x for x in range(n) if pos[x] < len(seqs[x]) and enabled(seqs[x][pos[x]])])
+        emit(out, seqs[i][pos[i]])
         pos[i] += 1
     return out
+
+
+def reuse_of(schedule):
+    """{i: s} for every generator i of a schedule that was constructed on the Definitions object parsed for another member s"""
+    return {op[1]: op[2] for op in schedule if op[0] == 'c' and len(op) > 2 and op[2] != op[1]}
 
 
 def impl_outcome(res):
@@ -1457,7 +1489,7 @@ def run_cases(ctx, cases, tmp, workers, groups=None, opts=None):
                     jobs[i]['pregen'] = (r.get('gens') or [None] * len(idx))[k] or \
                         {'err': 'other', 'cls': 'none', 'msg': 'generate() was not reached: ' + str(r.get('crash', ''))[-200:]}
         # a dictionary whose generator the schedule constructs but never lets write has no package: nothing to judge
-        unwritten = {i for i, (gi, k) in group_of.items() if not any(op == 'g' and m == k for op, m in groups[gi][1])}
+        unwritten = {i for i, (gi, k) in group_of.items() if not any(op[0] == 'g' and op[1] == k for op in groups[gi][1])}
         results = list(ex.map(lambda ij: {'skipped': True} if ij[0] in unwritten else run_worker(ij[1]), enumerate(jobs)))
     lines = []
     for _l, d, _v, _p in cases:
@@ -1478,7 +1510,19 @@ def run_cases(ctx, cases, tmp, workers, groups=None, opts=None):
                    'what': f'dictionary {k} of {len(idx)} generated in one process, schedule {sch}'}
             if plans:
                 rep['plans'] = True
-            ctx.count('interleaved-schedule:' + ('prepare-all-then-write' if all(op == 'c' for op, _ in sch[:len(idx)]) else 'mixed'))
+            first_g = min([n for n, op in enumerate(sch) if op[0] == 'g'] or [len(sch)])
+            ctx.count('interleaved-schedule:' + ('prepare-all-then-write' if all(op[0] == 'g' for op in sch[first_g:]) else 'mixed'))
+            ru = reuse_of(sch)
+            if k in ru:
+                # this package comes from a generator constructed on another member's parse() result
+                at = [n for n, op in enumerate(sch) if op[0] == 'c' and op[1] == k][0]
+                src_written = any(op[0] == 'g' and op[1] == ru[k] for op in sch[:at])
+                others = sum(1 for m, s in ru.items() if s == ru[k] and m != k)
+                ctx.count('parsed-object-reused:' + ('source-generated-before' if src_written else 'source-not-yet-generated')
+                          + ('+another-reuse' if others else ''))
+                rep['what'] += f'; its generator was constructed on the Definitions object parsed for dictionary {ru[k]} (the same file)'
+            elif k in ru.values():
+                ctx.count('parsed-object-reused:lender')
         ctx.case(json.dumps(d)[:300], nontrivial=True, sample_every=37)
         ctx.count(label)
         ctx.count('mode:' + job['mode'])
@@ -1599,15 +1643,37 @@ def run(ctx):
                              ([3, 4], [['c', 0], ['c', 1], ['g', 1], ['g', 0], ['g', 1]])):
             groups.append(([len(gcases) + k for k in range(len(members))], sch))
             gcases += [('interleaved-boundary', bd[m], True, []) for m in members]
+        # ONE parse() result handed to several generators (other app name / prefix / package directory): the deep dictionary
+        # twice (written before / after the second construction), the 12-uses dictionary parsed first and used by two
+        # generators, a component chain three times with another dictionary's generator in between
+        for members, sch in (([4, 4], [['c', 0], ['g', 0], ['c', 1, 0], ['g', 1]]), ([4, 4], [['c', 0], ['c', 1, 0], ['g', 1], ['g', 0]]),
+                             ([5, 5], [['p', 0], ['c', 1, 0], ['c', 0, 0], ['g', 0], ['g', 1]]),
+                             ([9, 4, 9, 9], [['c', 0], ['g', 0], ['c', 1], ['c', 2, 0], ['g', 1], ['g', 2], ['c', 3, 0], ['g', 3]])):
+            groups.append(([len(gcases) + k for k in range(len(members))], sch))
+            gcases += [('interleaved-boundary-reuse' if k in reuse_of(sch) else 'interleaved-boundary', bd[m], True, [])
+                       for k, m in enumerate(members)]
         for _ in range(n_groups):
             n = rng.choice([2, 2, 2, 3])
-            idx = []
+            idx, cleans = [], []
             for _k in range(n):
                 clean = rng.random() < 0.6
                 d = gen_dict(rng, ctx.tier, clean)
                 idx.append(len(gcases))
+                cleans.append(clean)
                 gcases.append(('interleaved', d, True, make_plans(rng, d, ref_expand(d), ctx.tier) if clean and rng.random() < 0.5 else []))
-            groups.append((idx, gen_schedule(rng, n)))
+            # in half of the groups 1..2 further generators are constructed on the Definitions object parsed for one of the
+            # dictionaries above (the same file, no second parse; own app name / prefix / package / directory): every package is
+            # judged against that dictionary on its own, exactly like the package of the generator that parsed it
+            reuse = {}
+            if rng.random() < 0.5:
+                for _k in range(rng.choice([1, 1, 2])):
+                    s = rng.randrange(n)
+                    d = gcases[idx[s]][1]
+                    reuse[len(idx)] = s
+                    idx.append(len(gcases))
+                    gcases.append(('interleaved-reuse', d, True,
+                                   make_plans(rng, d, ref_expand(d), ctx.tier) if cleans[s] and rng.random() < 0.5 else []))
+            groups.append((idx, gen_schedule(rng, len(idx), reuse)))
         per = 40
         for i in range(0, len(groups), per):
             if len(ctx.violations) >= 5:
@@ -1659,15 +1725,26 @@ def shrink_first(ctx, tmp, budget=140, seconds=50.0):
     """delta-debugging on the dictionary, coarse to fine, while a violation of the same leading kind remains: chunks of messages,
     components, header / trailer / message / component / group entries (a group is deleted or replaced by its content), then the
     fields nothing refers to, chunks of the others, the enumerated values of every field, and the characters of every value"""
-    import time as _time
     what, rep = ctx.violations[0]
     if rep.get('kind') == 'interleaved':
         return shrink_group(ctx, tmp)
     if rep.get('kind') != 'dictionary':
         return
     key = what.split(':')[0][:40]
-    d = json.loads(json.dumps(rep['dict']))
     plans_wanted = 'plan' in rep
+    d = shrink_dict(json.loads(json.dumps(rep['dict'])), key, lambda dd, tag: judge_one(dd, plans_wanted, tmp, tag, ctx), budget, seconds)
+    v = judge_one(d, plans_wanted, tmp, 'final', ctx)
+    if v and any(w.split(':')[0][:40] == key for w, _ in v):
+        w, r = [x for x in v if x[0].split(':')[0][:40] == key][0]
+        r = dict(r, label='shrunk', shrunk_from_size=len(json.dumps(rep['dict'])))
+        ctx.violations[0] = (w, r)
+
+
+def shrink_dict(d, key, judge, budget=140, seconds=50.0):
+    """the delta-debugging of `shrink_first` on dictionary `d` (changed in place and returned).  `judge(copy of d, tag)` -> the list
+    of (what, replay) violations the candidate still shows (None: could not be run); a candidate is kept while one of them has
+    the leading kind `key`"""
+    import time as _time
     n = [0]
     t_end = _time.monotonic() + seconds
 
@@ -1675,7 +1752,7 @@ def shrink_first(ctx, tmp, budget=140, seconds=50.0):
         if n[0] >= budget or _time.monotonic() > t_end or not py_valid(d):
             return False
         n[0] += 1
-        v = judge_one(json.loads(json.dumps(d)), plans_wanted, tmp, n[0], ctx)
+        v = judge(json.loads(json.dumps(d)), n[0])
         return bool(v) and any(w.split(':')[0][:40] == key for w, _ in v)
 
     def reduce_list(lst, unwrap=False):
@@ -1770,11 +1847,7 @@ def shrink_first(ctx, tmp, budget=140, seconds=50.0):
                                 i += chunk
                             chunk //= 2
                         v[0] = ''.join(lst) or orig
-    v = judge_one(d, plans_wanted, tmp, 'final', ctx)
-    if v and any(w.split(':')[0][:40] == key for w, _ in v):
-        w, r = [x for x in v if x[0].split(':')[0][:40] == key][0]
-        r = dict(r, label='shrunk', shrunk_from_size=len(json.dumps(rep['dict'])))
-        ctx.violations[0] = (w, r)
+    return d
 
 
 def shrink_group(ctx, tmp):
@@ -1803,30 +1876,64 @@ def shrink_group(ctx, tmp):
         def case(self, *a, **k):
             pass
 
-    def attempt(members, schedule):
+    def attempt(members, schedule, at=0, use=None):
+        """the group `members` (indices into the failing group) under `schedule`; a hit = the same kind of violation on the
+        package at position `at`.  `use`: a dictionary to put in the place of every member (shrinking a shared dictionary)."""
         sc = Scratch()
-        cases = [('shrunk', dicts[m], True, make_plans(ctx.rng, dicts[m], ref_expand(dicts[m]), 'quick') if m == w and 'plan' in rep else [])
-                 for m in members]
+        ds = [use if use is not None else dicts[m] for m in members]
+        cases = [('shrunk', d, True, make_plans(ctx.rng, d, ref_expand(d), 'quick') if k == at and 'plan' in rep else [])
+                 for k, d in enumerate(ds)]
         try:
             run_cases(sc, cases, tmp, 3, groups=[(list(range(len(members))), schedule)], opts={k: opts[m] for k, m in enumerate(members)})
         except Exception:  # noqa
             return None
-        hits = [(a, b) for a, b in sc.violations if a.split(':')[0][:40] == key and b.get('which') == 0]
+        hits = [(a, b) for a, b in sc.violations if a.split(':')[0][:40] == key and b.get('which') == at]
         return hits[0] if hits else None
+    ru = reuse_of(rep['schedule'])
     try:
-        for j in [None] + [m for m in range(len(dicts)) if m != w]:
-            if j is None:
-                cands = [([w], [['c', 0], ['g', 0]])]
-            else:
-                cands = [([w, j], [['c', 0], ['c', 1], ['g', 0]]), ([w, j], [['c', 1], ['c', 0], ['g', 0]]),
-                         ([w, j], [['c', 1], ['g', 1], ['c', 0], ['g', 0]])]
-            for members, schedule in cands:
-                hit = attempt(members, schedule)
-                if hit:
-                    ctx.violations[0] = (hit[0], dict(hit[1], label='shrunk', shrunk_from=f'{len(dicts)} dictionaries, schedule {rep["schedule"]}'))
-                    return
+        cands = [([w], [['c', 0], ['g', 0]], 0)]
+        if w in ru:
+            # the failing package's generator was constructed on another member's parse() result: that pair alone — nothing but
+            # the shared parse; the lender constructed too; the lender written before / after the second construction
+            s = ru[w]
+            cands += [([s, w], [['p', 0], ['c', 1, 0], ['g', 1]], 1), ([s, w], [['c', 0], ['c', 1, 0], ['g', 1]], 1),
+                      ([s, w], [['c', 0], ['g', 0], ['c', 1, 0], ['g', 1]], 1), ([s, w], [['c', 0], ['c', 1, 0], ['g', 0], ['g', 1]], 1)]
+        for m in [m for m, s in ru.items() if s == w]:
+            # the failing package lent its parse() result to generator m
+            cands += [([w, m], [['c', 0], ['c', 1, 0], ['g', 0]], 0), ([w, m], [['c', 0], ['c', 1, 0], ['g', 1], ['g', 0]], 0)]
+        for j in [m for m in range(len(dicts)) if m != w]:
+            cands += [([w, j], [['c', 0], ['c', 1], ['g', 0]], 0), ([w, j], [['c', 1], ['c', 0], ['g', 0]], 0),
+                      ([w, j], [['c', 1], ['g', 1], ['c', 0], ['g', 0]], 0)]
+        for members, schedule, at in cands:
+            hit = attempt(members, schedule, at)
+            if hit:
+                ctx.violations[0] = (hit[0], dict(hit[1], label='shrunk', shrunk_from=f'{len(dicts)} dictionaries, schedule {rep["schedule"]}'))
+                if len(members) > 1 and dicts[members[0]] == dicts[members[1]]:
+                    shrink_shared(ctx, members, schedule, at, attempt)
+                return
     except Exception:  # noqa
         pass
+
+
+def shrink_shared(ctx, members, schedule, at, attempt, budget=60, seconds=40.0):
+    """two generators on ONE parsed dictionary: shrink that dictionary (both members get the candidate) while the package at
+    `at` keeps failing the same way"""
+    import time as _time
+    what, rep = ctx.violations[0]
+    d0 = rep['dicts'][at]
+    n, t_end = [0], _time.monotonic() + seconds
+
+    def judge(d, _tag):
+        if n[0] >= budget or _time.monotonic() > t_end:
+            return None
+        n[0] += 1
+        hit = attempt(members, schedule, at, use=d)
+        return [hit] if hit else []
+    d = shrink_dict(json.loads(json.dumps(d0)), what.split(':')[0][:40], judge, budget=10 ** 6, seconds=seconds)
+    if d != d0:
+        hit = attempt(members, schedule, at, use=d)
+        if hit:
+            ctx.violations[0] = (hit[0], dict(hit[1], label='shrunk', shrunk_from=rep.get('shrunk_from'), shrunk_from_size=len(json.dumps(d0))))
 
 
 def replay(ctx, path):
